@@ -8,11 +8,14 @@ package fakes
 import (
 	gosync "sync"
 	"context"
-	"errors"
 	"io"
+
+	"anndbverif/vrt"
 
 	pb "github.com/marekgalovic/anndb/protobuf"
 	"google.golang.org/grpc"
+	"google.golang.org/grpc/codes"
+	"google.golang.org/grpc/status"
 )
 
 // Node is the set of real service objects registered for one simulated node.
@@ -33,7 +36,15 @@ var (
 	// Calls counts calls per "target method".
 	Calls = map[string]int{}
 
-	ErrUnavailable = errors.New("rpc error: code = Unavailable desc = simulated node unreachable")
+	// YieldBeforeCall makes every call a scheduling point BEFORE the request message is looked at: the real client
+	// goes through locks and atomics (stream set-up) before it serialises the message, so another goroutine can run
+	// between the statement that filled the message in and the moment it is read. Off by default (it multiplies the
+	// schedules of every scenario that makes calls); scenarios about request messages switch it on.
+	YieldBeforeCall bool
+
+	// what the real client returns for a peer that is down or cut off: a gRPC status error with code Unavailable
+	// (callers may and do look at the code)
+	ErrUnavailable = status.Error(codes.Unavailable, "simulated node unreachable")
 )
 
 // Reset clears registry, interceptor and counters (per execution).
@@ -41,6 +52,7 @@ func Reset() {
 	Registry = map[string]*Node{}
 	Intercept = nil
 	Calls = map[string]int{}
+	YieldBeforeCall = false
 }
 
 func target(cc grpc.ClientConnInterface) string {
@@ -57,6 +69,9 @@ func target(cc grpc.ClientConnInterface) string {
 var callsMu gosync.Mutex
 
 func pre(t, method string, ctx context.Context, req interface{}) (*Node, bool, interface{}, error) {
+	if YieldBeforeCall {
+		vrt.Yield()
+	}
 	callsMu.Lock()
 	Calls[t+" "+method]++
 	callsMu.Unlock()
